@@ -298,7 +298,7 @@ def r4_mutators(chk, prog, eng, L):
                 a, b = check_result(chk, eng, s, f, tag, 'this.mString', newlen, pieces, L)
                 n_cases += a
                 und += b
-    chk.require(n_spec >= 40, 'only %d mutators of FixedString<%d> matched a specification (unspecified: %s)' % (
+    chk.require(n_spec >= (40 if L == 10 else 30), 'only %d mutators of FixedString<%d> matched a specification (unspecified: %s)' % (
         n_spec, L, unspecified))
     return n_spec, n_cases, und, unspecified
 
@@ -536,7 +536,7 @@ def r7_observers(chk, prog, L):
         if f.short in ('find', 'rfind', 'find_first_of', 'find_first_not_of', 'find_last_of', 'find_last_not_of',
                        'contains', 'starts_with', 'ends_with', 'compare'):
             unspecified.append(c10.sig(f))
-    chk.require(n_scan >= 30 and n_cmp >= 8, 'only %d searching and %d comparing observers matched a specification' % (
+    chk.require(n_scan >= (30 if L == 10 else 25) and n_cmp >= (8 if L == 10 else 6), 'only %d searching and %d comparing observers matched a specification' % (
         n_scan, n_cmp))
     return n_scan, n_cmp, unspecified
 
@@ -655,7 +655,7 @@ def r5_simple(chk, prog, eng, L):
                                 bad = 'dest[ %r] holds %s' % (i, show(act))
                     chk.check(bad is None, 'R5', f.name, 'the copied characters are text[ pos + i] [%s]' % tag, f.loc(),
                               bad or '')
-    chk.require(count >= 16, 'only %d simple observers of FixedString<%d> found' % (count, L))
+    chk.require(count >= 14, 'only %d simple observers of FixedString<%d> found' % (count, L))
     return count
 
 
